@@ -19,5 +19,6 @@ CHECKS = {
     "C19": {"level": E, "units": [go("TestC19", 6000, 300000)]},
     "C03": {"level": E, "units": [go("TestC03", 2000, 60000)]},
     "C09": {"level": E, "units": [go("TestC09", 4000, 150000)]},
+    "C08": {"level": E, "units": [go("TestC08Parser", 200000, 8000000, netns=False), go("TestC08PDR", 4000, 150000), go("TestC08PFD", 1500, 60000)]},
     "C02": {"level": E, "units": [go("TestC02", 1600, 60000)]},
 }
